@@ -64,7 +64,11 @@ pub fn note_task_died() {
 
 pub fn note_task_finished() {
     let task = current_task();
-    with(|w| w.hist.finished_before_exit.push(task));
+    with(|w| {
+        w.hist.finished_before_exit.push(task);
+        let step = w.steps;
+        w.hist.finished_steps.push(step);
+    });
 }
 
 pub fn note_lib_result(r: LibResult) {
